@@ -122,6 +122,14 @@ impl<'a> BTreeIterator<'a> {
 	fn iter_inner(&mut self, direction: IterDirection) -> IterResult {
 		let col = self.col;
 
+		// Nothing precedes the start position and nothing follows the end position.
+		if matches!(
+			(&self.last_key, direction),
+			(LastKey::Start, IterDirection::Backward) | (LastKey::End, IterDirection::Forward)
+		) {
+			return Ok(None)
+		}
+
 		loop {
 			// Lock log over function call (no btree struct change).
 			let commit_overlay = self.commit_overlay.read();
